@@ -158,6 +158,14 @@ def round_returns_int(m, spec):
 
 
 # ----------------------------------------------------------------------
+
+def scale_stage(run, offset):
+    """Flow B on documents past the 64 / 256 thresholds (258-300 children, 66-72 levels, 66-70 attributes) with short
+    expressions about large positions, large unions and absolute paths from deep inside; validated by TLC against XSem."""
+    q = run.tier == "quick"
+    tr = run.drive("scale", 100 if q else 1500, seed_offset=offset)
+    run.validate_batch(tr, "scale-flowB", consts={"Chunk": 16})
+
 def run_C01(run):
     q = run.tier == "quick"
     # (1) every document up to N nodes x every path of 1..2 steps over all 12
@@ -204,6 +212,7 @@ def run_C01(run):
     #     from the engine and validated by TLC against the denotation
     tr = run.drive("paths", 1500 if q else 20000, extra=["-nodes", "20", "-steps", "4"])
     run.validate_batch(tr, "paths-flowB")
+    scale_stage(run, 1)
 
 
 ALL_CAT = set(range(1, 10))
@@ -302,6 +311,7 @@ def run_C03(run):
     run.gen_and_replay("MC_Expr", consts(ec, Family="C03nested", MaxNodes=1 if q else 5, CatIds={3, 5, 7} if q else ALL_CAT), name="pos-nested", kind="sel-set")
     # (2b) XQueryVM2 on numeric predicates (position counters, positmap, merge rewrite, (path)[n] re-rooting)
     vm2_stage(run, {2, 3, 4, 5, 7}, "C03")
+    scale_stage(run, 3)
     # trace validation against the model on seeded larger documents (see C02 (5f)); other seed
     tr = run.drive("vm", 2500 if q else 30000, extra=["-nodes", "14"], seed_offset=100)
     run.validate_batch(tr, "vm2-trace-validation", consts={"Deviations": set()}, module="XVMBatch", drift=True,
@@ -608,6 +618,9 @@ def run_C06(run):
 
 def run_C12(run):
     q = run.tier == "quick"
+    # every iterator the harness drains in this check is asked 300 more times after its end: it must keep answering false
+    os.environ["VERIF_PAST_END"] = "300"
+    scale_stage(run, 12)
     # the abstract API machine itself (MC_Api.tla): protocol properties of the SPECIFICATION for all interleavings of two
     # iterators, and the session validator accepts every behaviour the abstract machine can show
     combos = [("seq", 1, 1), ("once", 3, 2), ("set", 4, 3)] if q else [(m, e, d) for m in ("seq", "once", "set") for e in (1, 2, 3, 4) for d in (1, 3)]
@@ -636,6 +649,7 @@ def run_C12(run):
 
 def run_C13(run):
     q = run.tier == "quick"
+    scale_stage(run, 13)   # absolute paths from 66-72 levels deep
     comp = dict(MaxNodes=4 if q else 5, UseCat=True, CatIds=ALL_CAT, ElemNames={"a", "b"}, AttrNames={"a"}, TextVals={"1"}, WithComment=True,
                 RelAxes=AXES, PredMode=True)
     # (1) /addr(n)/p from every start node must select what p selects at n
@@ -663,6 +677,7 @@ def run_C11(run):
     run.gen_and_replay("MC_Expr", consts(base, Family="C11pred", MaxNodes=4 if q else 5), name="union-in-predicates", kind="sel-set")
     tr = run.drive("unions", 2500 if q else 40000, extra=["-nodes", "16"])
     run.validate_batch(tr, "unions-flowB")
+    scale_stage(run, 11)
     # node identity (XHash.tla): the key getHashCode hashes is injective on every document (TLC, KeyInjective); the two
     # non-injective keys of the past are refuted; on the engine: no two nodes of a document hash alike (VERDICT), and the
     # hash is FNV-64a of exactly the specified key (a difference without collision is model drift)
